@@ -125,7 +125,7 @@ def run(ctx):
         # vacuity guards: the assembly ran, the dispatcher ran, every pattern family and every code path class was present
         if ctx.actions.get('no-avx2'):
             raise MachineryError('vacuous run: this CPU has no AVX2, checksumAVX2 was not executed')
-        ctx.require_actions('avx2', 'dispatch', 'fallback', 'dense', 'pattern:const', 'pattern:alt', 'pattern:ramp', 'pattern:mix',
+        ctx.require_actions('avx2', 'dispatch', 'fallback', 'dense', 'fenced:end', 'fenced:start', 'pattern:const', 'pattern:alt', 'pattern:ramp', 'pattern:mix',
                             'pattern:const+spike', 'pattern:mix+spike', 'len_lt32', 'len32-63', 'len_ge64')
 
 
